@@ -636,6 +636,7 @@ def _replace(w, deck, a):
                 # the statement says nothing about a refused replacement: what the chart holds now is simply not known to the model until
                 # the next replacement that is accepted
                 m["unknown"] = True
+                deck.handles.pop(("c07kit", key), None)     # objects kept for series the refused call removed stand for nothing
                 w.stats.hit("c07_refused_replace_left_chart_changed")
             return "rejected:ValueError"
         site = _exc_site(e)
